@@ -228,16 +228,17 @@ CHECKS["C13"] = dict(
     design="DESIGN.md section 4 (C13)")
 
 CHECKS["C15"] = dict(
-    engine="E3: the real estimate_loc/estimate_scale/estimate_zscore/_scale_* and utils.apply_along_axes bytecode on numpy object arrays of symbolic reals; order statistics as uninterpreted functions of their ordered lane; z3",
-    technique="symbolic execution of the real estimator glue over numpy object arrays (numpy's own broadcasting/moveaxis/reshape), with every order statistic an uninterpreted function of the ordered lane it receives; z3 (EUF+LRA) decides lane-consistency, shapes and the zero-scale guard; models replayed on the real estimators",
-    text="PARTIAL. Decided: apply_along_axes hands each lane (or the flattened data) to the 1-D estimator in order for axis in {None, int, "
+    engine="E3: the real estimate_loc/estimate_scale/estimate_zscore/_scale_* (incl. the 1-D qn/gapper/diffcov bodies and doublemad) and utils.apply_along_axes bytecode on numpy object arrays of symbolic reals; order statistics as uninterpreted functions of their ordered lane under a trusted contract; z3",
+    technique="symbolic execution of the real estimator code over numpy object arrays (numpy's own broadcasting/moveaxis/reshape), with every order statistic (median, percentile, k-th order statistic of sort/partition, std, cov, sqrt) an uninterpreted function of the ordered lane it receives, constrained by instances of its affine contract; z3 (EUF+LRA) decides lane-consistency, shapes, the zero-scale guard and affine equivariance for concrete multipliers and symbolic offsets/data; models replayed on the real estimators",
+    text="Decided within bounds: apply_along_axes hands each lane (or the flattened data) to the 1-D estimator in order for axis in {None, int, "
          "negative, tuple}; estimate_loc (mean, median) and estimate_scale (std, iqr, mad, sn, qn, gapper, diffcov) along an axis equal the 1-D "
          "estimator on each lane and over the whole array equal it on the flattened data, keepdims results broadcast against the input; "
-         "estimate_zscore's divisor is never zero (a near-zero scale is replaced by one) and z-scores keep the input's shape. "
-         "NOT decided: affine equivariance (scale(a*x+b)=|a|scale(x)) - encoding MAD/Sn/Qn through sorting networks at the minimum lane length "
-         "of 8 leaves z3 at `unknown` after 120 s; biweight (astropy) and doublemad (NaN masking); finiteness under float overflow.",
-    note="Order statistics (median, percentile, partition, sort, cov, std) are trusted uninterpreted functions of the ordered lane; small shapes.",
-    design="DESIGN.md section 4 (C15)")
+         "estimate_zscore's divisor is never zero (a near-zero scale is replaced by one) and z-scores keep the input's shape; "
+         "affine equivariance loc(a*x+b)=a*loc(x)+b, scale(a*x+b)=|a|*scale(x) (std, iqr, mad with its fallback, doublemad, sn, qn, gapper, diffcov) and "
+         "zscore(a*x+b)=sign(a)*zscore(x) for non-degenerate scale, for the listed multipliers a of both signs, symbolic b and symbolic lanes. "
+         "PARTIAL: the biweight estimator (astropy internals), finiteness under float32 overflow, and multipliers other than the listed rationals are not decided.",
+    note="Order statistics are trusted uninterpreted functions of the ordered lane plus their affine contract; exact arithmetic; lanes of 5 (quick) / 8 (thorough) elements, doublemad 3 / 4; scale estimates strictly between 0 and 1e-5 excluded (np.isclose threshold).",
+    design="DESIGN.md section 4 (C15), section 10")
 
 CHECKS["C16"] = dict(
     engine="E3 on RFIMask.apply_mask/apply_method/apply_funcn (object arrays of symbolic booleans/reals) + E2 on Filterbank.clean_rfi orchestration and the apply_channel_mask streaming harness of C07; z3",
